@@ -24,6 +24,8 @@ structure PrintOK (P : PyChars) : Prop where
   atWord : P.isWord '@' = false
   /-- `\w` does not match `}` (used only by `parsed_writable`) -/
   rbWord : P.isWord '}' = false
+  /-- `\w` does not match a newline (a `@` in a free-text comment cannot look past the end of its line) -/
+  nlWord : P.isWord '\n' = false
   spSpace : P.isSpace ' ' = true
   tabSpace : P.isSpace '\t' = true
   nlSpace : P.isSpace '\n' = true
@@ -47,10 +49,32 @@ def CleanVal (P : PyChars) (v : Str) : Prop :=
   ∃ vt, IsBal vt ∧ flatten vt = v ∧
     ∀ rest, lexFrom P false (v ++ '}' :: rest) = vt ++ lexFrom P false ('}' :: rest)
 
+/-- an entry field value that can be written between braces: the enclosed text `{v}` lexes - when
+followed by what the writer emits after a value, a comma or a newline - to a `Value` of the dialect
+grammar (bare words, brace groups, quoted pieces; no top-level `,` `=`, no block start).  The content
+`v` itself need not be balanced: `A} # {B` (source `{A} # {B}`) and `a}{b` are fine. -/
+def EncVal (P : PyChars) (v : Str) : Prop :=
+  ∃ vt, IsValue vt ∧ flatten vt = '{' :: (v ++ ['}']) ∧
+    ∀ c r, (c = ',' ∨ c = '\n') →
+      lexFrom P false ('{' :: (v ++ '}' :: c :: r)) = vt ++ lexFrom P false (c :: r)
+
+/-- an @string value that can be written between braces: the enclosed text `{v}`, followed by the
+closing brace of the block, lexes to brace-balanced tokens (the @string scanner
+`_move_to_closed_bracket` only counts braces).  Again `v` itself may be unbalanced (`a} # {b`). -/
+def EncBal (P : PyChars) (v : Str) : Prop :=
+  ∃ vt, IsBal vt ∧ flatten vt = '{' :: (v ++ ['}']) ∧
+    ∀ rest, lexFrom P false ('{' :: (v ++ '}' :: '}' :: rest)) = vt ++ lexFrom P false ('}' :: rest)
+
+/-- no `@` of the text starts a block: the regex alternative `@\w*[ \t]*(?={)` fails at every `@`
+(what `re.search(r"@\w*[ \t]*\{", text) is None` says) -/
+def noStart (P : PyChars) : Str → Bool
+  | [] => true
+  | c :: r => (c != '@' || (atMatch P r).isNone) && noStart P r
+
 structure FieldOK (P : PyChars) (f : Field) : Prop where
   keySimple : SimpleText f.key
   keyStrip : strip P f.key = f.key
-  value : ∃ v, f.value = .str v ∧ CleanVal P v
+  value : ∃ v, f.value = .str v ∧ EncVal P v
 
 structure EntryOK (P : PyChars) (e : Entry) : Prop where
   tyWord : ∀ c ∈ e.ty, P.isWord c = true
@@ -69,10 +93,10 @@ structure EntryOK (P : PyChars) (e : Entry) : Prop where
 
 def BlockOK (P : PyChars) : Block → Prop
   | .live (.entry e) => EntryOK P e
-  | .live (.string k v _ _ _) => SimpleText k ∧ strip P k = k ∧ ∃ s, v = .str s ∧ CleanVal P s
+  | .live (.string k v _ _ _) => SimpleText k ∧ strip P k = k ∧ ∃ s, v = .str s ∧ EncBal P s
   | .live (.preamble v _ _ _) => CleanVal P v
   | .live (.expl c _ _ _) => CleanVal P c ∧ strip P c = c
-  | .live (.impl c _ _ _) => c ≠ [] ∧ strip P c = c ∧ '@' ∉ c
+  | .live (.impl c _ _ _) => c ≠ [] ∧ strip P c = c ∧ noStart P c = true
   | _ => False
 
 def isImpl : Block → Bool
@@ -159,14 +183,65 @@ theorem vtOf_spec {P : PyChars} {v : Str} (h : CleanVal P v) :
 def NLt : Tok := .mark .nl ['\n']
 def SPt : Tok := .text [' ']
 
-/-- the value tokens `" {" v "}"` -/
-noncomputable def valToks (P : PyChars) (v : Str) : List Tok := SPt :: LB :: (vtOf P v ++ [RB])
+/-- the tokens of an enclosed @string value `{v}` (chosen from `EncBal`) -/
+noncomputable def sevtOf (P : PyChars) (v : Str) : List Tok := by
+  classical
+  exact if h : EncBal P v then Classical.choose h else []
+
+theorem sevtOf_spec {P : PyChars} {v : Str} (h : EncBal P v) :
+    IsBal (sevtOf P v) ∧ flatten (sevtOf P v) = '{' :: (v ++ ['}']) ∧
+      ∀ rest, lexFrom P false ('{' :: (v ++ '}' :: '}' :: rest)) = sevtOf P v ++ lexFrom P false ('}' :: rest) := by
+  unfold sevtOf
+  simp only [h, ↓reduceDIte]
+  exact Classical.choose_spec h
+
+theorem encBal_of_clean {P : PyChars} {v : Str} (h : CleanVal P v) : EncBal P v := by
+  obtain ⟨vt, hb, hf, hl⟩ := h
+  refine ⟨LB :: (vt ++ [RB]), ?_, ?_, ?_⟩
+  · have := IsBal.grp ['{'] ['}'] vt [] hb IsBal.nil
+    simpa [LB, RB] using this
+  · simp [flatten, LB, RB, Tok.lit] at hf ⊢
+    exact hf
+  · intro rest
+    rw [lex_delim P '{' .lbrace _ (by decide), hl ('}' :: rest), lex_delim P '}' .rbrace _ (by decide)]
+    simp [LB, RB]
+
+/-- the value tokens `" {v}"` of an @string -/
+noncomputable def valToks (P : PyChars) (v : Str) : List Tok := SPt :: sevtOf P v
+
+/-- the tokens of an enclosed field value `{v}` (chosen from `EncVal`) -/
+noncomputable def evtOf (P : PyChars) (v : Str) : List Tok := by
+  classical
+  exact if h : EncVal P v then Classical.choose h else []
+
+theorem evtOf_spec {P : PyChars} {v : Str} (h : EncVal P v) :
+    IsValue (evtOf P v) ∧ flatten (evtOf P v) = '{' :: (v ++ ['}']) ∧
+      ∀ c r, (c = ',' ∨ c = '\n') →
+        lexFrom P false ('{' :: (v ++ '}' :: c :: r)) = evtOf P v ++ lexFrom P false (c :: r) := by
+  unfold evtOf
+  simp only [h, ↓reduceDIte]
+  exact Classical.choose_spec h
+
+/-- a clean (balanced) value is in particular a good enclosed value -/
+theorem encVal_of_clean {P : PyChars} {v : Str} (h : CleanVal P v) : EncVal P v := by
+  obtain ⟨vt, hb, hf, hl⟩ := h
+  refine ⟨LB :: (vt ++ [RB]), ?_, ?_, ?_⟩
+  · have := IsValue.braced ['{'] ['}'] vt [] hb IsValue.nil
+    simpa [LB, RB] using this
+  · simp [flatten, LB, RB, Tok.lit] at hf ⊢
+    exact hf
+  · intro c r _
+    rw [lex_delim P '{' .lbrace _ (by decide), hl (c :: r), lex_delim P '}' .rbrace _ (by decide)]
+    simp [LB, RB]
+
+/-- the value tokens `" {v}"` of a field -/
+noncomputable def fvalToks (P : PyChars) (v : Str) : List Tok := SPt :: evtOf P v
 
 noncomputable def fieldSrcs (P : PyChars) (F : BibtexFormat) (col : Nat) : List Field → List FieldSrc
   | [] => []
   | f :: fs =>
     ⟨[NLt, .text (lineHead F col f.key)],
-      valToks P (strOf f.value) ++ (if fs.isEmpty && !F.trailingComma then [NLt] else [])⟩ ::
+      fvalToks P (strOf f.value) ++ (if fs.isEmpty && !F.trailingComma then [NLt] else [])⟩ ::
       fieldSrcs P F col fs
 
 def trailingOf (F : BibtexFormat) (fs : List Field) : Option (List Tok) :=
